@@ -596,6 +596,7 @@ func TestC07(t *testing.T) {
 	hx.Run(s, c07Range, s.N(2000, 20000))
 	hx.Run(s, c07ListTarget, s.N(2000, 20000))
 	hx.Run(s, c07Sibling, s.N(2000, 20000))
+	hx.Run(s, c07Rec, s.N(800, 8000))
 }
 
 // ---- fc.range and fc.max-node-count -----------------------------------------------------
